@@ -225,23 +225,28 @@ def resetHeartbeat (cfg : Cfg) (s : St) : Out :=
 
 /-! ## `rejoin_after_error` without its `self.stop(...)` (returned as a flag) -/
 
-def rejoinCore (cfg : Cfg) (s : St) (e : GErr) : Out × Bool :=
-  let row := rejoinRow s.stopping e
+/-- the side effects of a table row: `on_group_leave()`, `reset_consumer_group_metadata`, `member_id = ""` -/
+def rowEffects (s : St) (row : RejoinRow) : Out :=
+  let o1 : Out := if row.leave then stopConsumers s else (s, [])
+  let o2 : Out := andThen o1 fun s => (s, if row.resetMeta then [.resetGroupMeta] else [])
+  andThen o2 fun s => (if row.clearMember then { s with member := 0 } else s, [])
+
+/-- the tail of `rejoin_after_error`: `_rejoin_needed = True`; a timer unless `_rejoin_wait_dc` is set -/
+def scheduleRejoin (cfg : Cfg) (s : St) (fatalDelay : Bool) : Out :=
+  let s := { s with rejoinNeeded := true }
+  if s.rejoinWaitDc.isNone then
+    andThen (addTimer s .rejoin (secs (if fatalDelay then cfg.fatalBackoffMs else cfg.retryBackoffMs)))
+      fun s' => ({ s' with rejoinWaitDc := some s.nextTimer }, [])
+  else (s, [])
+
+def rejoinWith (cfg : Cfg) (s : St) (row : RejoinRow) : Out × Bool :=
   match row.act with
   | .ignore => ((s, []), false)
   | .fatal => (stopConsumers s, true)           -- on_group_leave(); then self.stop(errback_result)
-  | .effectsOnly | .rejoin =>
-    let o1 : Out := if row.leave then stopConsumers s else (s, [])
-    let o2 : Out := andThen o1 fun s => (s, if row.resetMeta then [.resetGroupMeta] else [])
-    let o3 : Out := andThen o2 fun s => (if row.clearMember then { s with member := 0 } else s, [])
-    if row.act = .rejoin then
-      (andThen o3 fun s =>
-        let s := { s with rejoinNeeded := true }
-        if s.rejoinWaitDc.isNone then
-          andThen (addTimer s .rejoin (secs (if row.fatalDelay then cfg.fatalBackoffMs else cfg.retryBackoffMs)))
-            fun s' => ({ s' with rejoinWaitDc := some s.nextTimer }, [])
-        else (s, []), false)
-    else (o3, false)
+  | .effectsOnly => (rowEffects s row, false)
+  | .rejoin => (andThen (rowEffects s row) fun s => scheduleRejoin cfg s row.fatalDelay, false)
+
+def rejoinCore (cfg : Cfg) (s : St) (e : GErr) : Out × Bool := rejoinWith cfg s (rejoinRow s.stopping e)
 
 /-- an error escaped `_join_and_sync`: `cleanup_rejoin_d`, then `rejoin_d_errback`; the nested
     `self.stop` of a fatal row is returned as a flag. -/
@@ -251,64 +256,77 @@ def escapeCore (cfg : Cfg) (s : St) (e : GErr) : Out × Bool :=
 
 /-! ## `Coordinator.stop` -/
 
+/-- `if self._rejoin_d: d.cancel()` in `Coordinator.stop`: the join coroutine is cancelled where it
+    waits; the outcome is what the real client produces for that request. -/
+def cancelJoin (cfg : Cfg) (s : St) : Out :=
+  if s.rejoinD then
+    let s := { s with rejoinD := false }
+    match s.jpc with
+    | .idle => (s, [])
+    | .coordLookup =>
+      -- cancelled look-up fails with CancelledError -> `_get_coordinator_failed`
+      andThen (s, [.cancelReq .coordR]) fun s =>
+        match coordFailRow .cancelled with
+        | .propagate => (escapeCore cfg s .cancelled).1
+        | .retryInitial => andThen (addTimer s .retry (secs cfg.initialBackoffMs)) fun s => ({ s with jpc := .idle }, [])
+        | .retryFatal => andThen (addTimer s .retry (secs cfg.fatalBackoffMs)) fun s => ({ s with jpc := .idle }, [])
+    | .metaLoad =>
+      -- cancelled load_metadata_for_topics succeeds with None; `_stopping` -> return
+      ({ s with jpc := .idle }, [.cancelReq .metaR])
+    | .prepare =>
+      -- DeferredList cancelled -> FirstError -> stop every consumer of the batch; `_stopping` -> return
+      andThen (stopCons s s.prep.batch) fun s => ({ s with jpc := .idle, prep := ⟨[], []⟩ }, [])
+    | .join =>
+      andThen ({ s with jpc := .idle }, [.cancelReq .joinR]) fun s => (rejoinCore cfg s .cancelled).1
+    | .loadParts _ =>
+      andThen (s, [.cancelReq .partsR]) fun s => (escapeCore cfg s .kafkaUnavailable).1
+    | .sync =>
+      andThen ({ s with jpc := .idle }, [.cancelReq .syncR]) fun s => (rejoinCore cfg s .cancelled).1
+  else (s, [])
+
 /-- The tail of `Coordinator.stop` after the leave: cancel `_rejoin_d`, reset, fire `start`'s
     Deferred.  `_stopping` is true here, so a nested `self.stop` (fatal row) raises `RestopError`
     inside an unobserved Deferred: the flag of `rejoinCore` is dropped. -/
 def finishStop (cfg : Cfg) (s : St) (err : Option GErr) (user : Bool) : Out :=
-  let o : Out :=
-    if s.rejoinD then
-      let s := { s with rejoinD := false }
-      match s.jpc with
-      | .idle => (s, [])
-      | .coordLookup =>
-        -- cancelled look-up fails with CancelledError -> `_get_coordinator_failed`
-        andThen (s, [.cancelReq .coordR]) fun s =>
-          match coordFailRow .cancelled with
-          | .propagate => (escapeCore cfg s .cancelled).1
-          | .retryInitial => andThen (addTimer s .retry (secs cfg.initialBackoffMs)) fun s => ({ s with jpc := .idle }, [])
-          | .retryFatal => andThen (addTimer s .retry (secs cfg.fatalBackoffMs)) fun s => ({ s with jpc := .idle }, [])
-      | .metaLoad =>
-        -- cancelled load_metadata_for_topics succeeds with None; `_stopping` -> return
-        ({ s with jpc := .idle }, [.cancelReq .metaR])
-      | .prepare =>
-        -- DeferredList cancelled -> FirstError -> stop every consumer of the batch; `_stopping` -> return
-        andThen (stopCons s s.prep.batch) fun s => ({ s with jpc := .idle, prep := ⟨[], []⟩ }, [])
-      | .join =>
-        andThen ({ s with jpc := .idle }, [.cancelReq .joinR]) fun s => (rejoinCore cfg s .cancelled).1
-      | .loadParts _ =>
-        andThen (s, [.cancelReq .partsR]) fun s => (escapeCore cfg s .kafkaUnavailable).1
-      | .sync =>
-        andThen ({ s with jpc := .idle }, [.cancelReq .syncR]) fun s => (rejoinCore cfg s .cancelled).1
-    else (s, [])
-  andThen o fun s =>
+  andThen (cancelJoin cfg s) fun s =>
     let s := { s with member := 0, gen := none, coordBroker := false, started := false, leaveWait := none }
     let fire : List Ob := if s.startResult.isNone then [.startFired err] else []
     ({ s with startResult := if s.startResult.isNone then some err else s.startResult },
      fire ++ (if user then [.stopFired false] else []))
+
+/-- `if self._rejoin_wait_dc: self._rejoin_wait_dc.cancel()` -/
+def stopCancelDc (s : St) : Out :=
+  match s.rejoinWaitDc with
+  | some id => cancelTimer s id
+  | none => (s, [])
+
+/-- `if self._heartbeat_request_d: self._heartbeat_request_d.cancel()`: the request fails with
+    CancelledError -> `_handle_heartbeat_failure` -/
+def stopCancelHb (cfg : Cfg) (s : St) : Out :=
+  if s.hbInFlight then
+    let s := { s with hbInFlight := false }
+    if s.hbRunning then
+      andThen (andThen (s, [.cancelReq .hbR]) hbStop) fun s => (rejoinCore cfg s .cancelled).1
+    else (s, [.cancelReq .hbR, .raised "AssertionError"])
+  else (s, [])
+
+/-- `if self._heartbeat_looper.running: self._heartbeat_looper.stop()` -/
+def stopLooper (s : St) : Out := if s.hbRunning then hbStop s else (s, [])
+
+/-- `if self.coordinator_broker is not None and self.member_id: yield self.send_leave_group_request()` -/
+def leaveOrFinish (cfg : Cfg) (err : Option GErr) (user : Bool) (s : St) : Out :=
+  if s.coordBroker && s.member != 0 then
+    ({ s with leaveWait := some (err, user) }, [.leave s.member])
+  else finishStop cfg s err user
 
 /-- `Coordinator.stop(errback_result)` from its first statement. -/
 def coordStop (cfg : Cfg) (s : St) (err : Option GErr) (user : Bool) : Out :=
   if !s.started || s.stopping then (s, if user then [.stopFired true] else [])   -- RestopError
   else
     let s := { s with stopping := true, rejoinNeeded := false }
-    -- `if self._rejoin_wait_dc: self._rejoin_wait_dc.cancel()`: raises if the call is not active
+    -- `self._rejoin_wait_dc.cancel()` raises if the call is not active
     if s.rejoinWaitDc.any (fun id => !timerActive s id) then (s, [.raised "AlreadyCalled"]) else
-    let o : Out := match s.rejoinWaitDc with
-      | some id => cancelTimer s id
-      | none => (s, [])
-    let o := andThen o fun s =>
-      if s.hbInFlight then
-        -- cancel the heartbeat request: it fails with CancelledError -> `_handle_heartbeat_failure`
-        let s := { s with hbInFlight := false }
-        if s.hbRunning then
-          andThen (andThen (s, [.cancelReq .hbR]) hbStop) fun s => (rejoinCore cfg s .cancelled).1
-        else (s, [.cancelReq .hbR, .raised "AssertionError"])
-      else (s, [])
-    let o := andThen o fun s => if s.hbRunning then hbStop s else (s, [])
-    andThen o fun s =>
-      if s.coordBroker && s.member != 0 then
-        ({ s with leaveWait := some (err, user) }, [.leave s.member])
-      else finishStop cfg s err user
+    andThen (andThen (andThen (stopCancelDc s) (stopCancelHb cfg)) stopLooper) (leaveOrFinish cfg err user)
 
 /-- `ConsumerGroup.stop`: `while self.consumers: yield self.shutdown_consumers()`, then
     `Coordinator.stop`. -/
@@ -365,7 +383,7 @@ def drainDone (s : St) (d : Drain) (ok : Bool) : Out :=
 /-- the consumer `cid`'s shutdown Deferred fired -/
 def consumerDown (cfg : Cfg) (s : St) (cid : Nat) (ok : Bool) : Out :=
   -- the consumer itself has stopped (`_start_d = None`, start's Deferred called back)
-  let s : St := { s with cons := s.cons.map fun (c : Con) => if c.cid = cid then { c with phase := .stopped, startFired := true } else c }
+  let s : St := { s with cons := s.cons.map fun (c : Con) => if c.cid = cid && c.phase == .draining then { c with phase := .stopped, startFired := true } else c }
   if s.jpc = .prepare && s.prep.pending.contains cid then
     let d : Drain := { s.prep with pending := s.prep.pending.filter (· != cid) }
     if ok && !d.pending.isEmpty then ({ s with prep := d }, [])
